@@ -139,6 +139,10 @@ func TestC17(t *testing.T) {
 		txs := &sqlrec.Table{Columns: []string{"id", "timestamp", "reference", "postings", "metadata"}}
 		logs := &sqlrec.Table{Columns: []string{"ledger", "id", "type", "hash", "date", "data", "idempotency_key"}}
 		accounts := &sqlrec.Table{Columns: []string{"address", "metadata"}}
+		// metadata revisions (what the history triggers of the schema keep): the item's current metadata is its
+		// newest revision; older revisions carry other values, also ones the filter of the walk would match
+		txMeta := &sqlrec.Table{Columns: []string{"transactions_seq", "revision", "date", "metadata"}}
+		accMeta := &sqlrec.Table{Columns: []string{"accounts_seq", "revision", "date", "metadata"}}
 		var expected []string
 		var expAccounts []string
 		for i, id := range ids {
@@ -156,15 +160,28 @@ func TestC17(t *testing.T) {
 			case "not":
 				match = !tag
 			}
+			nRev := 1
+			if rapid.IntRange(0, 2).Draw(rt, "revised") == 0 {
+				nRev = rapid.IntRange(2, 3).Draw(rt, "revisions")
+			}
+			for rv := 1; rv <= nRev; rv++ {
+				m := md
+				if rv < nRev {
+					m = rapid.SampledFrom([]string{`{}`, `{"k":"v"}`, `{"k":"old"}`}).Draw(rt, "oldMeta")
+				}
+				at := time.Unix(1600000000+int64(rv)*1000, 0).UTC()
+				txMeta.Rows = append(txMeta.Rows, sqlrec.Row{"transactions_seq": int64(1000 + i), "revision": int64(rv), "date": at, "metadata": []byte(m)})
+				accMeta.Rows = append(accMeta.Rows, sqlrec.Row{"accounts_seq": int64(2000 + i), "revision": int64(rv), "date": at, "metadata": []byte(m)})
+			}
 			items.Rows = append(items.Rows, sqlrec.Row{"id": id.String(), "name": fmt.Sprintf("n%d", i)})
 			var refv driver.Value = ref
 			if tag && filter != "reference" {
 				refv = fmt.Sprintf("t%d", i) // references are unique in a ledger
 			}
-			txs.Rows = append(txs.Rows, sqlrec.Row{"id": id.String(), "timestamp": time.Unix(1700000000, 0).UTC(), "reference": refv, "postings": []byte(`[{"source":"world","destination":"a","amount":340282366920938463463374607431768211456,"asset":"USD"}]`), "metadata": []byte(md)})
+			txs.Rows = append(txs.Rows, sqlrec.Row{"seq": int64(1000 + i), "id": id.String(), "timestamp": time.Unix(1700000000, 0).UTC(), "reference": refv, "postings": []byte(`[{"source":"world","destination":"a","amount":340282366920938463463374607431768211456,"asset":"USD"}]`), "metadata": []byte(md)})
 			logs.Rows = append(logs.Rows, sqlrec.Row{"ledger": "l1", "id": id.String(), "type": "SET_METADATA", "hash": []byte{1, 2}, "date": time.Unix(1700000000, 0).UTC(), "data": []byte(`{"targetType":"ACCOUNT","targetId":"a","metadata":{}}`), "idempotency_key": ""})
 			addr := fmt.Sprintf("acc:%s", id.String())
-			accounts.Rows = append(accounts.Rows, sqlrec.Row{"address": addr, "metadata": []byte(md)})
+			accounts.Rows = append(accounts.Rows, sqlrec.Row{"seq": int64(2000 + i), "address": addr, "metadata": []byte(md)})
 			if match {
 				expected = append(expected, id.String())
 				expAccounts = append(expAccounts, addr)
@@ -172,6 +189,7 @@ func TestC17(t *testing.T) {
 		}
 		sort.Strings(expAccounts)
 		eng.Tables["items"], eng.Tables["transactions"], eng.Tables["logs"], eng.Tables["accounts"] = items, txs, logs, accounts
+		eng.Tables["transactions_metadata"], eng.Tables["accounts_metadata"] = txMeta, accMeta
 		rec := &sqlrec.Recorder{Answer: eng.Answer}
 		db := sqlrec.NewDB(rec)
 		defer db.Close()
